@@ -281,7 +281,7 @@ func dedupSchema(d *xDoc) (removed []string) {
 
 func main() {
 	c := vk.Init("C12")
-	c.Rule("programs = schemas run through cmd/fixgen built from the working tree: the two shipped schemas (source/fix44.xml; generator/testdata/fix.4.4.xml with its deliberate duplicate removed) and schemas derived by a seeded mutator (remove/reorder/add/rename/renumber members and fields, remove messages, toggle required, change a type's cast, introduce duplicate field numbers or message types, add a repeating group at nesting depth 3; six fixed cast changes that cover Raw and Time), each with a relative, nested or absolute output directory. Per accepted schema three stages: (1) go build of the emitted package; (2) every constant, constructor signature, accessor signature, accessor item index and member list read back with go/parser and compared with the harness's own XML reader; (3) a behavioural driver derived from the XML (not from the emitted code) executed against the compiled package: each setter puts exactly its own tag=value on the wire, getters return it, all-populated wire order = schema order, populating constructors carry exactly the required members, group AddEntry/Entries round-trip, BeginString/MsgType. Plus byte-identical regeneration (also into a directory that already holds the reference generation, with a schema that shortens files; also 24 generations of a schema in which two components declare a group of the same name with different members), identical output across output directories (also when the generator is used as a library and one parsed schema object is generated from three times), rejection of duplicate numbers/msgtypes, and tests/fix44 vs fresh generation as declaration multisets. distinct = distinct schema texts; non-trivial = differs from a shipped schema by at least one mutation")
+	c.Rule("programs = schemas run through cmd/fixgen built from the working tree: the two shipped schemas (source/fix44.xml; generator/testdata/fix.4.4.xml with its deliberate duplicate removed) and schemas derived by a seeded mutator (remove/reorder/add/rename/renumber members and fields, remove messages, toggle required, change a type's cast, introduce duplicate field numbers or message types, add a repeating group at nesting depth 3; six fixed cast changes that cover Raw and Time), each with a relative, nested or absolute output directory. Per accepted schema three stages: (1) go build of the emitted package; (2) every constant, constructor signature, accessor signature, accessor item index and member list read back with go/parser and compared with the harness's own XML reader; (3) a behavioural driver derived from the XML (not from the emitted code) executed against the compiled package: each setter puts exactly its own tag=value on the wire, getters return it, all-populated wire order = schema order, populating constructors carry exactly the required members, group AddEntry/Entries round-trip, BeginString/MsgType. Plus byte-identical regeneration (also into a directory that already holds the reference generation, with a schema that shortens files; also 24 generations of a schema in which two components declare a group of the same name with different members), identical output across output directories (also when the generator is used as a library: one parsed schema object generated from three times with a new Generator each, and one Generator object executed three times), rejection of duplicate numbers/msgtypes, and tests/fix44 vs fresh generation as declaration multisets. distinct = distinct schema texts; non-trivial = differs from a shipped schema by at least one mutation")
 	c.Assume("translation validation by execution on sampled schemas; the harness's XML reader and type-mapping reader are the trusted base; mutations never touch the fields the session pipelines' typed interfaces depend on")
 	work := c.WorkDir
 	if work == "" {
@@ -614,13 +614,15 @@ func main() {
 			os.MkdirAll(filepath.Join(lmod, "libgen"), 0o755)
 			os.WriteFile(filepath.Join(lmod, "libgen", "main.go"), []byte(libgenSource), 0o644)
 			d1, d2, d3 := filepath.Join(det, "lib1", "fix44"), filepath.Join(det, "lib2", "nested", "fix44"), filepath.Join(det, "lib3", "fix44")
-			out, err := run(lmod, "go", "run", "./libgen", schema, typesP, d1, d2, d3)
+			d4, d5, d6 := filepath.Join(det, "lib4", "fix44"), filepath.Join(det, "lib5", "nested", "fix44"), filepath.Join(det, "lib6", "fix44")
+			out, err := run(lmod, "go", "run", "./libgen", schema, typesP, d1, d2, d3, d4, d5, d6)
 			c.Count("disagreements_checked", 1)
-			c.Count("library_api_generations_from_one_parsed_schema", 3)
+			c.Count("library_api_generations_from_one_parsed_schema", 6)
+			c.Count("library_api_executions_of_one_generator_object", 3)
 			if err != nil {
 				c.Violate("C12/library-api/generation-from-an-already-used-schema-object-failed", "parsing the reference schema once and generating from that object three times: "+vk.Trunc(out, 600), map[string]interface{}{"output": vk.Trunc(out, 1500)})
 			} else {
-				for k, d := range []string{d1, d2, d3} {
+				for k, d := range []string{d1, d2, d3, d4, d5, d6} {
 					fs, _ := readDir(d)
 					c.Count("disagreements_checked", 1)
 					if !sameFiles(sets[0], fs) {
